@@ -126,6 +126,7 @@ theorem ibs_verifyCore_eq (L : Laws C) (oid : Bytes) {Hb : Bytes} (sig : Bytes) 
   · rw [if_pos hs, if_pos hs]
   · have hs' : leNat (sig.drop (C.no / 2)) < C.q := by omega
     rw [if_neg hs, if_neg hs, L.smul_eq, L.smul_eq, L.add_eq, ibs_addmod L hs' hH]
+    rfl
 
 /-- the two outcomes of `verifyCore` -/
 theorem ibs_verifyCore_cases (L : Laws C) (oid : Bytes) {Hb : Bytes} (sig : Bytes) (Q : G)
@@ -187,6 +188,7 @@ theorem ibs_idVerify_eq (L : Laws C) {oid : Bytes} (idH : Bytes) {Hb : Bytes} (i
   · have hs' : leNat (idSig.drop (C.no / 2)) < C.q := by omega
     rw [if_neg hs, if_neg hs, L.smul_eq, L.smul_eq, L.smul_eq, L.add_eq, L.add_eq,
       ibs_addmod L hs' hH, ibs_t1 L.q_pos]
+    rfl
 
 /-! ### the nonces -/
 
